@@ -23,11 +23,11 @@ CHECKS = {
    note="Only types whose encoding round-trips are generated (the property's own restriction)."),
  "C06": dict(cat="exploration", design="DESIGN.md §4 C06",
    technique="model-based differential property testing: DiffIter / StartDiff+NextEntry vs. the difference of two model maps",
-   text="Ordered pairs of trees (derived by clone/reload + ops, unrelated, identical, empty/emptied, nil old; in memory / persisted / reloaded) are diffed through both interfaces and compared with the model difference (keys, order, kinds, old/new values, once each), including early stop by false / by error at a generated index and read-onlyness. A one-sided report must carry no value for the absent side; callbacks also fail with mast.ErrNoMoreDiffs / a wrapper of it / mast.ErrIterDone; a third of the cases run after an abandoned diff.",
+   text="Ordered pairs of trees (derived by clone/reload + ops, unrelated, identical, empty/emptied, nil old; in memory / persisted / reloaded) are diffed through both interfaces and compared with the model difference (keys, order, kinds, old/new values, once each), including early stop by false / by error at a generated index and read-onlyness. A one-sided report must carry no value for the absent side; callbacks also fail with mast.ErrNoMoreDiffs / a wrapper of it / mast.ErrIterDone; a third of the cases run after an abandoned diff. Either side may also be opened through no cache or a cache of its own, or be an unsaved clone of a clone.",
    note="Both trees share one configuration (precondition of the property)."),
  "C07": dict(cat="exploration", design="DESIGN.md §4 C07",
    technique="property testing with node-set oracle from a recording store + replica round-trip",
-   text="For generated ordered pairs of persisted versions the DiffLinks callbacks are compared with the node sets reachable from each root (new\\old subset added subset new, symmetric for removed, once each, names only) and a replica seeded with old + added must load the new version completely. A third of the cases run after another diff was stopped or failed part-way.",
+   text="For generated ordered pairs of persisted versions the DiffLinks callbacks are compared with the node sets reachable from each root (new\\old subset added subset new, symmetric for removed, once each, names only) and a replica seeded with old + added must load the new version completely. A third of the cases run after another diff was stopped or failed part-way. The two sides may be opened through the shared cache, no cache or a cache of their own.",
    note="Versions whose roots are incomplete abort the case (C03's subject)."),
  "C08": dict(cat="exploration", design="DESIGN.md §4 C08",
    technique="property testing over every Store call with an independent hash and codec (decode/re-encode round-trip)",
@@ -47,12 +47,12 @@ CHECKS = {
    note="Key ranges taken closed; only the stated direction of IsDirty is asserted."),
  "C15": dict(cat="exploration", design="DESIGN.md §4 C15",
    technique="property testing of a cost bound: distinct Persist.Load names per diff call vs. 2D+2 from the reference node sets",
-   text="DiffIter and DiffLinks on freshly opened, cache-less trees may load at most 2D+2 distinct nodes (D = symmetric difference of the reachable node sets) and none for identical versions; generated pairs plus enumerated large trees (up to 3000 / 60000 keys) differing in 1-5 keys. Also with the new version opened through a second handle of the same store that reports another NodeURLPrefix, through cold caches, and through the writer's warm cache.",
+   text="DiffIter and DiffLinks on freshly opened, cache-less trees may load at most 2D+2 distinct nodes (D = symmetric difference of the reachable node sets) and none for identical versions; generated pairs plus enumerated large trees (up to 3000 / 60000 keys) differing in 1-5 keys. Also with the new version opened through a second handle of the same store that reports another NodeURLPrefix, through cold caches, and through the writer's warm cache. Further families: lookups and cursor descents through the writer's cache before the diff (cache smaller than the touched part), and versions that differ by one far key of a high layer next to a dense run (an entry-less intermediate node on one side only), in both directions.",
    note="Loads counted on a recording store without cache."),
 
  "C03": dict(cat="fault_enumeration", design="DESIGN.md §4 C03",
    technique="fault injection + harness-owned completion order (gated Persist) in generated flush scenarios; enumeration of every single failing Store position",
-   text="MakeRoot runs against a gated store that assigns each arriving Store call a generated fate (delay class, straggler held until MakeRoot has returned or 5 ms, failure); on success an atomic in-flight counter must be zero at return and every node reachable from the returned root must be in the store under the name of its own bytes; any failed Store must surface as an error, the tree must stay usable and a retry must produce a complete root; every single failing arrival position is enumerated for flushes of <=12 writes; a second store with another prefix shares the cache. Likewise two of the library's own in-memory stores behind one cache.",
+   text="MakeRoot runs against a gated store that assigns each arriving Store call a generated fate (delay class, straggler held until MakeRoot has returned or 5 ms, failure); on success an atomic in-flight counter must be zero at return and every node reachable from the returned root must be in the store under the name of its own bytes; any failed Store must surface as an error, the tree must stay usable and a retry must produce a complete root; every single failing arrival position is enumerated for flushes of <=12 writes; a second store with another prefix shares the cache. Likewise two of the library's own in-memory stores behind one cache. Shared-cache modes: two of the library's in-memory stores, two S3 stores with different prefixes on one service, and two S3 services (different endpoints) with the same bucket and prefix, each pair behind one node cache: a root returned for the second store must be complete in that store.",
    note="No timing enters a verdict; completion orders are sampled through delays, not enumerated."),
  "C11": dict(cat="exploration", design="DESIGN.md §4 C11",
    technique="randomised concurrent programs under the Go race detector (-race build), frozen lock-free shared environment + real ARC cache environment, per-goroutine model oracle",
@@ -68,7 +68,7 @@ CHECKS = {
    note="'Every release and host' is sampled on this host; the golden file was cross-checked against harness/ref when generated."),
  "C16": dict(cat="exploration", design="DESIGN.md §4 C16",
    technique="property testing of cost bounds: Persist.Load calls per API call on a recording store without cache",
-   text="Persisted trees (generated histories; enumerated large trees of up to 2500/40000 keys) are re-opened cache-less for each probe; LoadMast/Clone/Cursor <= 1 node, Get <= h+1, Insert/Delete at unchanged height <= 2(h+1), and on large trees a single cursor move or a SeekIter stopped at its first entry <= 4(h+1)+4. Clone of an opened-then-modified version <= 1, MakeRoot of one within the sub-linear cap, and a lookup with a key of another type <= h+1. Every Persist.Load call counts (a node read twice is two reads).",
+   text="Persisted trees (generated histories; enumerated large trees of up to 2500/40000 keys) are re-opened cache-less for each probe; LoadMast/Clone/Cursor <= 1 node, Get <= h+1, Insert/Delete at unchanged height <= 2(h+1), and on large trees a single cursor move or a SeekIter stopped at its first entry <= 4(h+1)+4. Clone of an opened-then-modified version <= 1, MakeRoot of one within the sub-linear cap, and a lookup with a key of another type <= h+1. Every Persist.Load call counts (a node read twice is two reads). A further probe opens the version without ValuesLike (a read-only opening that names no value type) and looks up present and absent keys with typed and untyped destinations: still <= h+1.",
    note="The un-numbered clause is checked with a generous sub-linear cap only where the tree is large enough to tell."),
  "C17": dict(cat="fault_enumeration", design="DESIGN.md §4 C17",
    technique="process-level crash-point enumeration: re-executed child with RLIMIT_FSIZE = cut offset (killed by SIGXFSZ or EFBIG returned), every offset for small payloads",
@@ -76,7 +76,7 @@ CHECKS = {
    note="Tearing below the write syscall is not modelled."),
  "C18": dict(cat="exploration", design="DESIGN.md §4 C18",
    technique="stateful model-based property testing of the Persist contract across backends with a recording, fault-injecting fake S3 client",
-   text="Programs of store / re-store / concurrent same-name store / load / load-missing (+ injected Put/Get/body failures for S3) over in-memory, file and S3 backends against a name->bytes model; the fake S3 client must hold exactly bucket / prefix+name objects; thorough adds gofakes3 over HTTP. File-backend write faults with a retry, S3 bodies that break off, a put that fails after its body was read, and a load whose response is held back across a successful store of the same name.",
+   text="Programs of store / re-store / concurrent same-name store / load / load-missing (+ injected Put/Get/body failures for S3) over in-memory, file and S3 backends against a name->bytes model; the fake S3 client must hold exactly bucket / prefix+name objects; thorough adds gofakes3 over HTTP. File-backend write faults with a retry, S3 bodies that break off, a put that fails after its body was read, and a load whose response is held back across a successful store of the same name. A second file store on another directory of the same process must not be affected by what the first one stored or found.",
    note="A name is always re-written with the same bytes."),
  "C19": dict(cat="exploration", design="DESIGN.md §4 C19",
    technique="mutation-based property testing with an independent classifier oracle (+ native coverage-guided fuzzing of the top-node bytes in the thorough tier)",
